@@ -20,13 +20,17 @@ META = dict(
                "satisfies every law and that broken channels are rejected. The implementation is bound by replaying the "
                "generated histories through the real push / fetch / object-store code and letting TLC evaluate the laws on "
                "what was observed. Bounded small-scope exploration of an unbounded input space, hence model_checking level.",
-    level_note="Histories <= 4 (quick) / 5 (thorough) revisions over <= 10 paths (depth 2; names include a one-character name, "
-               "a non-ASCII name and names with a space), files / symlinks / directories incl. empty and nested empty ones, "
+    level_note="Histories <= 4 (quick) / 5 (thorough) revisions over <= 10 paths (depth 2; a non-ASCII name, names with a space, "
+               "every fourth history a one-character name), files / symlinks / directories incl. empty and nested empty ones, "
                "executable bits, renames (also of directories), kind changes with and without a new file id, deletions, "
-               "pointless commits, merges (two parents), several roots, tags. Native -> git uses the lossy push (the default "
-               "mapping does not round-trip; a plain push raises NoRoundtrippingSupport). SHA-1 values are opaque to the "
-               "spec. Names git cannot hold ('.git') are outside the model. Trusted: TLC, the JSON bridge, CommitBuilder (the "
-               "fixture is re-read and compared with the abstract history), dulwich.",
+               "pointless commits, merges (<= 3 parents in thorough), several roots, tags. Native -> git uses the lossy push "
+               "(`brz push --lossy` / dpush: the default mapping does not round-trip, a plain push raises "
+               "NoRoundtrippingSupport), through InterToGitBranch.push and through InterToLocalGitRepository.fetch_refs; "
+               "fetch back through Branch.pull and Repository.fetch. Repositories live on disk (tmpfs) so that each has its "
+               "own git cache. SHA-1 values are opaque to the spec. Names git cannot hold ('.git') are outside the model. "
+               "Violation signatures name the class of the delta-debugged minimal failing history; the python twin of the "
+               "laws used for shrinking must agree with TLC on every row (else drift). Trusted: TLC, the JSON bridge, "
+               "CommitBuilder (the fixture is re-read and compared with the abstract history), dulwich.",
 )
 
 
